@@ -6,7 +6,7 @@ from .. import facts
 from ..cfg import Cfg
 from ..common import (arg_fields, arg_roots, arm_blocks, awaited, def_of, inst_of, method, str_guards, target_of)
 from ..prov import Prov, flatten, field_names
-from ..util import fns_by_key, keyname, place_of, norm, last
+from ..util import fns_by_key, keyname, place_of, norm, last, with_closures
 
 LEVEL = "other"
 B0 = "harper_ls::backend::{impl}::"
@@ -56,6 +56,7 @@ def run(ck, tier):
     ck.rule("R-C09-source", "who-may-call: update_document_from_file (re-reads the file from disk) is called only from did_save; every other refresh must use the client's buffer text")
     ck.rule("R-C09-close", "a closed document stays closed: a live DocumentState can only be created with the language id a didOpen supplied - the state-creating closure of update_document takes `language_id` from the handler parameter (map/to_string only), and every caller other than did_open passes None (or hands on its own parameter); a state without language id is removed again")
     ck.rule("R-C09-order", "in update_document the only await point between handler entry and the doc_state store is the doc_state lock itself (tower-lsp runs up to 4 handlers concurrently; tokio's Mutex is FIFO), or the store is guarded by the notification's version")
+    ck.rule("R-C09-fresh", "a handler that re-lints documents from the server's own copy of their text reads that copy when the document's turn comes: no update_document call inside a loop is fed a text read (get_full_string) before the loop - the loop awaits between documents, so from the second document on such a text can be older than an edit handled meanwhile")
     ck.not_decided += ["that the published diagnostics equal those of the newest text (needs execution)", "client-side behaviour"]
     ck.assumptions += ["tower-lsp 0.20 polls up to four handlers concurrently in arrival order (buffer_unordered(4)); tokio::sync::Mutex grants the lock in FIFO order"]
     p = facts.load()
@@ -63,6 +64,7 @@ def run(ck, tier):
     _source(ck, p)
     _order(ck, p)
     _close(ck, p)
+    _fresh(ck, p)
 
 
 def _publish(ck, p):
@@ -459,3 +461,53 @@ def _close(ck, p):
                 bad.append((keyname(p, f), f.loc(t["ln"])))
     ck.floor(rule, "callers of update_document / update_document_from_file", n, 5)
     ck.decide(rule, "update_document:who-supplies-language-id", not bad, "", "every caller other than did_open passes None or hands on its own parameter: %s%s" % (not bad, "" if not bad else " (offending: %s)" % bad))
+
+
+# ---------------------------------------------------------------------------------------------------
+def _reads_copy(p, c, depth=0):
+    """does this function (or a closure it creates) read the server's copy of a document's text?"""
+    for h in with_closures(p, c):
+        for _, t in h.calls():
+            if method(t) in ("get_full_string", "get_full_content", "get_source"):
+                return True
+    return False
+
+
+def _fresh(ck, p):
+    rule = "R-C09-fresh"
+    target = B0 + "update_document"
+    sites = []
+    for f in p.fns.values():
+        if not f.name.startswith("harper_ls::"):
+            continue
+        for bi, t in f.calls():
+            if inst_of(t) == target:
+                sites.append((f, bi, t))
+    ck.floor(rule, "callers of update_document", len(sites), 3)
+    for f, bi, t in sorted(sites, key=lambda x: x[0].name):
+        ck.saw(f)
+        cfg = Cfg(f)
+        pv = Prov(f)
+        key = "%s:update_document" % keyname(p, f).replace("::{closure}", "")
+        loops = [body for body in cfg.natural_loops().values() if bi in body]
+        reads = []
+        for o in arg_roots(f, pv, t["args"][2]):
+            if o[0] != "call":
+                continue
+            ct = f.blocks[o[1]]["t"]
+            direct = method(ct) in ("get_full_string", "get_full_content", "get_source")
+            via = False
+            for a in ct["args"]:
+                for x in pv.trace_operand(a):
+                    if x[0] == "agg" and x[1] == "closure" and x[2] in p.fns and _reads_copy(p, p.fns[x[2]]):
+                        via = True
+            if direct or via:
+                reads.append((o[1], ct))
+        stale = [(rb, ct) for rb, ct in reads if any(rb not in body for body in loops)]
+        if stale:
+            rb, ct = stale[0]
+            ck.refuted(rule, key, f.loc(t["ln"]), "update_document is called inside a loop with a text that was read from the server's copy before the loop (%s at line %d): every iteration awaits (configuration round trip, document lock), so an edit handled while an earlier document is processed is overwritten with the older text and its diagnostics are published last" % (method(ct), ct["ln"]))
+        elif reads:
+            ck.proved(rule, key, f.loc(t["ln"]), "the server's copy is read (%s) in the same pass that hands it to update_document%s" % (method(reads[0][1]), "" if not loops else ", inside the same loop iteration"))
+        else:
+            ck.proved(rule, key, f.loc(t["ln"]), "text does not come from the server's copy (notification text or file read)")
